@@ -1148,10 +1148,90 @@ def interleave_leg(res, rng, n):
                     witness=log[-12:])
 
 
+def fixed_hash_leg(res, rng, n):
+    """hash-map variables of the fixed-point format: declared default,
+    written by Python, copied / computed by the program, read by Python"""
+    from decimal import Decimal
+
+    def dec(rng_):
+        return float(Decimal(rng_.randint(-10 ** 9, 10 ** 9)) / 100000)
+    for _ in range(n):
+        d0, d1 = rng.choice([0, 1, 1.5, -0.25, dec(rng)]), \
+            rng.choice([0, 0, 2.5, dec(rng)])
+        add = rng.choice([0.5, 1, -3, 0.29])
+        h = HashMap()
+        m = ArrayMap()
+        ns = {"license": "GPL", "h": h, "m": m,
+              "ha": h.globalVar("x", d0), "hb": h.globalVar("x", d1),
+              "hq": h.globalVar("q", -7), "o": m.globalVar("x"),
+              "mode": m.globalVar("B")}
+
+        def program(self):
+            e = self
+            with e.mode == 1:
+                e.hb = e.ha + add
+            e.o = e.ha
+            e.r0 = 2
+            e.exit()
+        ns["program"] = program
+        desc = dict(fixed_hash_leg=True, defaults=[d0, d1], add=add)
+
+        def near(a, b):
+            return isinstance(a, (int, float)) and \
+                round(a * 100000) == round(b * 100000)
+        with kern.session() as sess:
+            try:
+                e = type("VfFixedHash", (XDP,), ns)()
+                ld = prog.Loaded(e, sess)
+                ld.load()
+            except Exception as ex:
+                res.case([desc, "load"], nontrivial=True)
+                res.violation(
+                    "unexplained:fixed-point-hash-variable",
+                    f"a program with fixed-point hash-map variables "
+                    f"(defaults {d0}, {d1}) cannot be loaded: "
+                    f"{type(ex).__name__}: {str(ex)[-200:]}", case=desc)
+                continue
+            try:
+                steps = []
+                try:
+                    steps.append("read the defaults")
+                    got = (e.ha, e.hb, e.hq)
+                    ok = near(got[0], d0) and near(got[1], d1) and \
+                        got[2] == -7
+                    if ok:
+                        v = dec(rng)
+                        steps.append(f"write {v}")
+                        e.ha = v
+                        got = (e.ha, e.hq)
+                        ok = near(got[0], v) and got[1] == -7
+                    if ok:
+                        steps.append("run")
+                        e.mode = 1
+                        ld.run_k(bytes(64))
+                        got = (e.o, e.hb, e.ha, e.hq)
+                        ok = near(got[0], v) and near(got[1], v + add) \
+                            and near(got[2], v) and got[3] == -7
+                except Exception as ex:
+                    got, ok = f"{type(ex).__name__}: {ex}", False
+                res.case([desc, steps], nontrivial=True)
+                res.count("fixed_point_hash_variable_sequences")
+                if not ok:
+                    res.violation(
+                        "unexplained:fixed-point-hash-variable",
+                        f"fixed-point hash-map variables with defaults "
+                        f"{d0}, {d1} (program: hb = ha + {add}): after "
+                        f"'{steps[-1]}' Python reads {got}", case=desc)
+            finally:
+                ld.close()
+
+
 def run_shard(params):
     res = Result()
     rng = random.Random(params["seed"] * 100109 + params["shard"])
     sign_leg(res, random.Random(rng.getrandbits(32)), 6)
+    fixed_hash_leg(res, random.Random(rng.getrandbits(32)),
+                   6 if params["nd"] <= 100 else 20)
     interleave_leg(res, random.Random(rng.getrandbits(32)),
                    6 if params["nd"] <= 100 else 20)
     order_leg(res, random.Random(rng.getrandbits(32)),
